@@ -59,6 +59,9 @@ def monitor(case, tr, raw):
                 if val == 1 and not first and f in ctx and ctx[f][0] == 'live' and ctx[f][1] != t:
                     return "fiber %d marked RUNNING by thread %d while it is executing on thread %d" % (f, t, ctx[f][1])
             continue
+        if kind == 909 and 1000 <= loc < 1100 and val == 79:
+            return ("fiber %d: a fiber_join racing with a fiber_detach of the same target returned neither the result nor "
+                    "FIBER_ERROR" % (loc - 1000))
         if kind == 909 and 1000 <= loc < 1100 and val == 78:
             return "fiber %d: a writer held the rwlock together with another writer or a reader" % (loc - 1000)
         if kind == 909 and 1000 <= loc < 1100 and val == 77:
